@@ -11,6 +11,7 @@ import OFV.Proofs.C13
 import OFV.Proofs.C13Shape
 import OFV.Proofs.C13Shape2
 import OFV.Proofs.C13Grid
+import OFV.Proofs.C13Grid2
 import OFV.Proofs.C13Diag
 import OFV.Proofs.C13Sound
 import OFV.Proofs.C13Herm
@@ -365,6 +366,26 @@ theorem grid_indices_orbital_id_spin (L cs : List Nat) (σ : Nat) (hσ : σ < 2)
     (h : List.Forall₂ (· < ·) cs L) :
     gridIndices L (orbitalId L cs (some σ)) false = cs ∧ orbitalId L cs (some σ) % 2 = σ :=
   gridIndices_orbitalId_spin L cs σ hσ h
+
+/-- **all_points_spec.**  `Grid.all_points_indices()` (every dimension, every shape) yields exactly the coordinate
+tuples inside the grid, each once -/
+theorem all_points_spec (L : List Nat) :
+    (∀ cs, cs ∈ allPoints L ↔ List.Forall₂ (· < ·) cs L) ∧ (allPoints L).Nodup :=
+  ⟨mem_allPoints L, allPoints_nodup L⟩
+
+/-- **orbital_id is a bijection from the grid points onto `range(num_points)`**: the orbital ids of
+`all_points_indices()` are a permutation of `0 … num_points - 1` (no orbital is skipped or visited twice by the loops
+of the jellium generators) -/
+theorem all_points_orbital_bijection (L : List Nat) :
+    ((allPoints L).map fun cs => orbitalId L cs none).Perm (List.range (numPoints L)) :=
+  allPoints_orbital_perm L
+
+/-- **plane_wave_kinetic_structure_spec.**  For every grid shape the spinless `plane_wave_kinetic` loop adds exactly
+one number operator per orbital `q < num_points`, with the momentum `index_to_momentum_ints(grid_indices(q))` -/
+theorem plane_wave_kinetic_structure_spec (L : List Nat) :
+    (planeWaveKineticStruct L true).Perm
+      ((List.range (numPoints L)).map fun q => ([(q, 1), (q, 0)], momentumInts L (gridIndices L q true))) :=
+  kineticStruct_spinless_perm L
 
 /-! non-vacuity: concrete lattices with a length-2 periodic dimension -/
 example : (edges adjNN 2 3 true).length = 9 := by decide
